@@ -225,12 +225,28 @@ func streamPrec(seed uint64, idx int) caseT {
 			map[string]interface{}{"b": []interface{}{}}, map[string]interface{}{"c": map[string]interface{}{"d": true}}, 3.0},
 	}
 	atoms := []string{"a", "b", "c", "d", "e", "@", "`1`", "`false`", "'x'", "`[1,2]`", "[0]", "*"}
-	term := func() toks {
+	var term func() toks
+	depth := 0
+	term = func() toks {
 		t := toks{}
 		for g.r.chance(25) {
 			t = append(t, "!")
 		}
-		t = append(t, g.r.pick(atoms))
+		if depth < 2 && g.r.chance(18) {
+			// a parenthesised group as the atom: whatever it is inside (a projection, a binary operator), it is CLOSED, and the
+			// postfixes that follow apply to its value — `(a[*]).b` is `a[*] | b`, not `a[*].b`
+			depth++
+			t = append(t, "(")
+			t = append(t, term()...)
+			if g.r.chance(30) {
+				t = append(t, g.r.pick([]string{"|", "||", "&&", "=="}))
+				t = append(t, term()...)
+			}
+			t = append(t, ")")
+			depth--
+		} else {
+			t = append(t, g.r.pick(atoms))
+		}
 		for i := 0; i < 3 && g.r.chance(45); i++ {
 			switch g.r.intn(9) {
 			case 0, 1:
